@@ -156,10 +156,11 @@ def poolDecAmounts (p : PoolInfo) : R (List Nat) :=
     let d ← getD? p.decimals i
     decWithPrecision c.amount d
 
-/-- convergence threshold of `calculate_stableswap_d`: `Decimal256::one()` on the pinned tree
-    (F-01), one unit at the pool's max precision after the fix -/
-def stableDThreshold (maxPrecision : Nat) : Nat :=
-  if C.STABLE_D_THRESHOLD_IS_ONE_TOKEN = 1 then ONE18 else 10 ^ (18 - maxPrecision)
+/-- convergence threshold of `calculate_stableswap_d`: one smallest unit at the pool's max
+    precision, `decimal_with_precision(1, max_precision)` (F-01 fix; the pinned tree used
+    `Decimal256::one()`, one whole token — the extractor reports which of the two the source has) -/
+def stableDThreshold (maxPrecision : Nat) : R Nat :=
+  if C.STABLE_D_THRESHOLD_IS_ONE_TOKEN = 1 then pure ONE18 else decWithPrecision 1 maxPrecision
 
 def stableDStep (amounts : List Nat) (nDec ann sumPools : Nat) (cur : Nat) : R Nat := do
   let newD ← amounts.foldlM (fun acc a => do
@@ -183,8 +184,9 @@ def calculateStableswapD (p : PoolInfo) (n amp : Nat) : R Nat := do
   if sumPools == 0 then pure 0 else
   let prod ← ckMul U256_MAX amp n
   let ann ← fit U256_MAX (prod * ONE18) .panic
-  let maxP := (listMax p.decimals).getD 0
-  newtonIter C.NEWTON_ITERATIONS (stableDThreshold maxP) (stableDStep amounts nDec ann sumPools) sumPools
+  let maxP ← match listMax p.decimals with | some m => pure m | none => .error .panic
+  let thr ← stableDThreshold maxP
+  newtonIter C.NEWTON_ITERATIONS thr (stableDStep amounts nDec ann sumPools) sumPools
 
 /-! ### stableswap: y in Uint512 (helpers.rs `calculate_stableswap_y`) -/
 
@@ -276,9 +278,10 @@ def computeSwapStable (p : PoolInfo) (amp : Nat) (offerC askC : Coin) (offerPrec
   let adjRet ← decToUintWithPrecision g18 dp
   let adjOffer ← decToUintWithPrecision offerDec maxPrec
   let slip0 := adjOffer - adjRet      -- saturating_sub
+  -- converted to the *ask* precision, like the return amount and the fees (F-10 fix)
   let slippage ←
-    if offerPrec < maxPrec then do
-      let d ← decWithPrecision slip0 (maxPrec - offerPrec)
+    if askPrec < maxPrec then do
+      let d ← decWithPrecision slip0 (maxPrec - askPrec)
       pure (decFloor d)
     else pure slip0
   let fc ← computeFees p.fees gross
@@ -586,8 +589,9 @@ def sortCoins (cs : List Coin) : List Coin :=
 
 /-! ### assert_slippage_tolerance (deposits) -/
 
-/-- returns the (possibly re-ordered!) `pool_assets` slice: the code sorts the caller's slice in
-    place (F-08) — only when it reaches the sort. -/
+/-- returns the caller's `pool_assets` slice as the caller sees it afterwards: unchanged — the
+    comparison sorts a *local copy* by denom (before the F-08 fix the caller's slice was sorted in
+    place and then stored by `provide_liquidity`). -/
 def assertSlippageTolerance (tol : Option Nat) (deposits : List Coin) (poolAssets : List Coin)
     (ptype : PoolType) : R (List Coin) := do
   if poolAssets.any (·.amount == 0) then pure poolAssets else
@@ -608,7 +612,7 @@ def assertSlippageTolerance (tol : Option Nat) (deposits : List Coin) (poolAsset
       let sF := isqrt dF
       let ratio ← orPanic (decFromRatio U256_MAX sF sI)
       let r2 ← orPanic (decPow2 U256_MAX ratio)
-      if r2 > tol then .error .slippage else pure sorted
+      if r2 > tol then .error .slippage else pure poolAssets
     | .cp =>
       if depAmts.length != 2 || pools.length != 2 then .error .invalidInput else
       let unw (r : R Nat) : R Nat := orPanic (r)
@@ -621,6 +625,6 @@ def assertSlippageTolerance (tol : Option Nat) (deposits : List Coin) (poolAsset
       let c ← unw (decFromRatio U256_MAX d1 d0)
       let c ← unw (decMul U256_MAX c oneMinus)
       let e ← unw (decFromRatio U256_MAX p1 p0)
-      if c > e then .error .slippage else pure sorted
+      if c > e then .error .slippage else pure poolAssets
 
 end MantraDex
